@@ -68,14 +68,6 @@ int snoopy_datasource_datetime (char * const resultBuf, size_t resultBufSize, ch
         return snprintf(resultBuf, resultBufSize, "(error @ time(): %d)", errno);
     }
 
-    // Convert to local time (libc holds its time zone lock in there - see tsrm.h)
-    snoopy_tsrm_libcGuard_enter();
-    curLocalTime = localtime_r(&curTime, &curLocalTimeBuf);
-    snoopy_tsrm_libcGuard_leave();
-    if (NULL == curLocalTime) {
-        return snprintf(resultBuf, resultBufSize, "(error @ localtime_r())");
-    }
-
     // Determine the format to use
     if (arg[0] != '\0') {
         formatToUse = arg;
@@ -83,8 +75,22 @@ int snoopy_datasource_datetime (char * const resultBuf, size_t resultBufSize, ch
         formatToUse = SNOOPY_DATASOURCE_DATETIME_defaultFormat;
     }
 
-    // Format it
-    snoopy_tsrm_libcGuard_enter();   // strftime() calls tzset(): same lock
+    /*
+     * Convert to local time and format it (libc holds its time zone lock in there - see tsrm.h).
+     *
+     * One guarded region, and tzset() first: localtime_r() need not look at TZ again, but strftime() does
+     * (it calls tzset() itself). Without the explicit call the first record after the program has changed TZ
+     * is converted with the old zone and then formatted with the new one: %z/%Z show the old zone and %s
+     * (mktime() of the old zone's wall clock in the new zone) is a different instant altogether.
+     * strftime() takes the same lock for the same work anyway, and fork() waits for the guard.
+     */
+    snoopy_tsrm_libcGuard_enter();
+    tzset();
+    curLocalTime = localtime_r(&curTime, &curLocalTimeBuf);
+    if (NULL == curLocalTime) {
+        snoopy_tsrm_libcGuard_leave();
+        return snprintf(resultBuf, resultBufSize, "(error @ localtime_r())");
+    }
     timeLength = strftime(timeBuffer, SNOOPY_DATASOURCE_DATETIME_sizeMaxWithNull, formatToUse, curLocalTime);
     snoopy_tsrm_libcGuard_leave();
     if (0 == timeLength) {
